@@ -303,7 +303,7 @@ theorem evalStep_mono (env : Spec.Env) {srec srec' : Spec.Rec} (h : SRecLe srec 
       exact OLe_map _ (kwRef_mono hs env s n j) r hr
     · have hnd7 : (env.draft == .d7 && n.ref != "") = false := by simpa using hd7
       cases hseq : Spec.sequence [Spec.kwRef env (srec (scope0 ++ [s])) s n j,
-        Spec.kwDynamicRef env (srec (scope0 ++ [s])) (scope0 ++ [s]) s n j,
+        Spec.kwDynamicRef env (srec (scope0 ++ [s])) (scope0 ++ [s]) s (Spec.vocab env.draft n) j,
         Spec.kwAllOf (srec (scope0 ++ [s])) n j, Spec.kwAnyOf (srec (scope0 ++ [s])) n j,
         Spec.kwOneOf (srec (scope0 ++ [s])) n j, Spec.kwNot (srec (scope0 ++ [s])) n j,
         Spec.kwIf (srec (scope0 ++ [s])) n j, Spec.kwItems env (srec (scope0 ++ [s])) n j,
@@ -326,7 +326,7 @@ theorem evalStep_mono (env : Spec.Env) {srec srec' : Spec.Rec} (h : SRecLe srec 
         obtain ⟨r12, rs12, h12, hs12, rfl⟩ := sequence_cons_eq_some hs11
         rw [evalStep_defined env srec scope0 s j n hn hnd7 h1 h2 h3 h4 h5 h6 h7 h8 h9 h10 h11 h12] at hr
         rw [evalStep_defined env srec' scope0 s j n hn hnd7
-          (kwRef_mono hs env s n j r1 h1) (kwDynamicRef_mono hs env _ s n j r2 h2)
+          (kwRef_mono hs env s n j r1 h1) (kwDynamicRef_mono hs env _ s _ j r2 h2)
           (kwAllOf_mono hs n j r3 h3) (kwAnyOf_mono hs n j r4 h4) (kwOneOf_mono hs n j r5 h5)
           (kwNot_mono hs n j r6 h6) (kwIf_mono hs n j r7 h7) (kwItems_mono hs env n j r8 h8)
           (kwContains_mono hs _ j r9 h9) (kwProps_mono hs env n j r10 h10)
